@@ -9,9 +9,11 @@ from vf.model.devsim import SimError, apply, expect, same_state
 PID = "C01"
 LEVEL = "exploration"
 BUDGET = {"quick": 6000, "thorough": 300000}
-VENDORS = ["huawei", "cisco", "arista", "nexus", "iosxr", "h3c", "b4com", "pc", "aruba", "optixtrans", "juniper", "ribbon", "nokia"]
+VENDORS = ["huawei", "cisco", "arista", "nexus", "iosxr", "h3c", "b4com", "pc", "aruba", "optixtrans", "juniper", "ribbon", "nokia", "routeros"]
 # vendors whose formatter sends a FLAT stream (one self-contained command per line): word put in front of a line that sets something
 FLAT = {"juniper": "set", "ribbon": "set", "nokia": "/configure"}
+# RouterOS: a line starting with '/' enters a menu (= the block path), every other line is a command run in the menu entered last
+MENU = {"routeros"}
 RULE = ("Hypothesis draws (via strategies.randoms, every choice a Hypothesis draw) a rule tree over the rule language "
         "(literals, *, trailing ~, nested blocks depth<=3, %global leaf rule, %ordered child rules, '~ %rewrite %global' blocks, "
         "logics default/undo_redo/permanent/ignore_changes), one of 13 vendors (10 block-structured, 3 with flat set/delete streams), a device tree old with <=1 row per (rule,key) "
@@ -28,15 +30,16 @@ ASSUMPTIONS = [
     "juniper / ribbon / nokia send a flat stream ('set a b c', 'delete a b c'): the patch tree is walked by the check's own walker "
     "(block path + command, no exits), that walk is executed on the simulator, and the flat stream the formatter emits must be that walk, "
     "command by command, each written as <set word> + block path + line or delete + block path + removed line",
-    "RouterOS 'remove [ find ... ]' streams are not executed here",
+    "RouterOS: the stream is judged for the menu every command runs in (a '/...' line enters a menu; the i-th command line is the i-th "
+    "command of the check's own walk and must run in the menu of its block path); 'remove [ find ... ]' streams are not executed",
 ]
-FLOORS = {"same-key-change": 0.2, "ordered-move": 0.04, "removal+addition": 0.5, "rewrite-reset": 0.04, "flat-stream": 0.08}
+FLOORS = {"same-key-change": 0.2, "ordered-move": 0.04, "removal+addition": 0.5, "rewrite-reset": 0.04, "flat-stream": 0.08, "menu-stream": 0.02}
 
 
 def _gen_from(rnd):
     vendor = rnd.choice(VENDORS)
     # (a flat-stream device has no 'entering a block again replaces its content': %rewrite objects exist on block-structured vendors only)
-    rules = RL.gen_rules(rnd, opts={"rewrite": False} if vendor in FLAT else None)
+    rules = RL.gen_rules(rnd, opts={"rewrite": False} if (vendor in FLAT or vendor in MENU) else None)
     ctx = RL.Ctx(rules)
     unk = 0.3 if rnd.random() < 0.4 else 0.0
     old = RL.gen_tree(rnd, ctx, unk)
@@ -176,6 +179,31 @@ def _flat_paths(vendor, pt, ctx, rev, labels, det):
     return [list(p) for p in paths]
 
 
+def _menu_paths(vendor, pt, rev, labels, det):
+    """menu streams (RouterOS): the i-th command line of the stream is the i-th command of the check's own walk of the patch tree and
+    runs in the menu of that command's block path (how a command is spelled - 'remove [ find ... ]' - is not judged here)"""
+    from vf.model import sut
+    walked = [p for p, _ in _walk(pt, rev, (), None)]
+    stream = [k[0] for k in sut.formatter(vendor).cmd_paths(pt).keys()]
+    cur, got = None, []
+    for line in stream:
+        if line.startswith("/"):
+            cur = line
+        else:
+            got.append((cur, line))
+    want = [("/" + " ".join(p[:-1])) if len(p) > 1 else None for p in walked]
+    det.update({"stream": stream, "walk_of_the_patch_tree": [list(p) for p in walked]})
+    if len(got) != len(want):
+        raise Violation("menu-stream", "the patch tree holds %d commands, the stream sends %d command lines: %r" % (len(want), len(got), stream), det)
+    for i, ((menu, line), w) in enumerate(zip(got, want)):
+        if w is not None and menu != w:
+            raise Violation("menu-stream", "command %d (%r, sent as %r) belongs to the menu %r but the menu entered last at that point of the "
+                            "stream is %r: %r" % (i, walked[i][-1], line, w, menu, stream), det)
+    if any(w is not None for w in want):
+        labels.append("menu-stream")
+    return [list(p) for p in walked]
+
+
 def check(case):
     from vf.model import sut
     vendor = case["vendor"]
@@ -191,12 +219,20 @@ def check(case):
         _step_labels(ctx, dev, tgt, labels)
         diff, pt = sut.diff_and_patch(vendor, dev, tgt, rb)
         det = {"step": step, "rulebook": RL.rule_text(rules)}
-        paths = _flat_paths(vendor, pt, ctx, rev, labels, det) if vendor in FLAT else sut.cmd_paths(vendor, pt)
+        if vendor in MENU:
+            paths = _menu_paths(vendor, pt, rev, labels, det)
+        else:
+            paths = _flat_paths(vendor, pt, ctx, rev, labels, det) if vendor in FLAT else sut.cmd_paths(vendor, pt)
         det["paths"] = paths
         _paths_labels(paths, rev, exitw, labels)
+        if vendor in MENU:
+            # RouterOS sections are menus, not objects that are created and removed, and a removal is spelled as a query
+            # ('remove [ find ... ]'): the stream is judged for where each command runs (above), it is not executed on the simulator
+            dev = tgt
+            continue
         stats = {}
         try:
-            got = apply(paths, dev, ctx, rev, exitw, stats, implicit_blocks=vendor in FLAT)
+            got = apply(paths, dev, ctx, rev, exitw, stats, implicit_blocks=vendor in FLAT or vendor in MENU)
         except SimError as e:
             raise Violation("exec-error", f"step {step}: {e}", det)
         if stats.get("undo-nothing"):
@@ -207,14 +243,15 @@ def check(case):
             det.update({"device_after": RL.plain(got), "expected": RL.plain(exp)})
             raise Violation("no-convergence", f"step {step}: after executing the patch the device is not the target: {why}", det)
         d2, pt2 = sut.diff_and_patch(vendor, got, tgt, rb)
-        p2 = _flat_paths(vendor, pt2, ctx, rev, [], det) if vendor in FLAT else sut.cmd_paths(vendor, pt2)
+        p2 = (_menu_paths(vendor, pt2, rev, [], det) if vendor in MENU else
+              _flat_paths(vendor, pt2, ctx, rev, [], det) if vendor in FLAT else sut.cmd_paths(vendor, pt2))
         if strict:
             if d2 or p2:
                 det.update({"second_diff": repr(d2)[:400], "second_paths": p2})
                 raise Violation("second-run-not-empty", f"step {step}: second diff/patch after convergence is not empty: {p2 or d2!r}"[:600], det)
         elif p2:
             try:
-                got2 = apply(p2, got, ctx, rev, exitw, implicit_blocks=vendor in FLAT)
+                got2 = apply(p2, got, ctx, rev, exitw, implicit_blocks=vendor in FLAT or vendor in MENU)
             except SimError as e:
                 raise Violation("exec-error", f"step {step} (second patch): {e}", det)
             if same_state(got2, got, ctx):
